@@ -2,7 +2,8 @@
 
 Lexical (unbounded in the length of the text, one-step lemmas over the live rule patterns):
   LX-REJECT, LX-ONLY for every token and ignore rule, what error() does (pysym on its source),
-  the end-of-text check for an unterminated block comment (pysym on parse_source).
+  PS-GLUE: what parse_source does around lexer and parser (vf/props/glue.py, pysym on parse_source), including
+  the end-of-text check for an unterminated block comment.
 Syntactic (token sequences up to K): L(G_impl) subset of L(G_ref) by CYK circuits (SAT);
   PARSE-ABSORB: the LR driver's error branch never resumes (pysym on Parser.parse's error block
   with the live ExperimentParser.error); conflict lists empty; table validation on near-misses.
@@ -26,60 +27,6 @@ from vf.replay import enc
 
 PROP = "C06"
 WRAP = "pyab_experiment.utils.wraper_functions"
-
-
-def unterminated_comment_check():
-    """pysym on parse_source: if the lexer ends in another state than it started in, parse_source must raise."""
-    from vf.pysym.interp import Interp, Scope
-    import ast as _ast
-    stub_src = ("class BlockComment:\n    pass\n"
-                "class ExperimentLexer:\n    def tokenize(self, text):\n        return ('tokens', text)\n"
-                "class ExperimentParser:\n    def parse(self, tokens):\n        return 'AST'\n")
-    seen = {}
-
-    def setup(it):
-        def tokenize_stub(ctx, interp, args, kwargs):
-            ctx.recorded.append(("lexer", args[0]))
-            return ("tokens", args[1])
-
-        def parse_stub(ctx, interp, args, kwargs):
-            k = ctx.choose(2, label="final_lexer_state")
-            lx = [v for t, v in ctx.recorded if t == "lexer"]
-            ctx.recorded.append(("final", "comment" if k == 1 else "initial"))
-            if k == 1 and lx:
-                lx[-1].pyclass = seen["BlockComment"]
-            return "AST"
-        it.call_overrides["ExperimentLexer.tokenize"] = tokenize_stub
-        it.call_overrides["ExperimentParser.parse"] = parse_stub
-
-    def entry(it):
-        env = it.import_module(WRAP)
-        stub_env = ModuleEnv("stubs")
-        sc = Scope("module", stub_env.vars, stub_env.vars, owner=stub_env)
-        it.exec_body(_ast.parse(stub_src).body, sc)
-        for n in ("ExperimentLexer", "ExperimentParser"):
-            if n not in env.vars:
-                raise common.Inconclusive("parse_source no longer uses %s" % n)
-            env.vars[n] = stub_env.vars[n]
-        if "BlockComment" in env.vars:
-            env.vars["BlockComment"] = stub_env.vars["BlockComment"]
-        seen["BlockComment"] = stub_env.vars["BlockComment"]
-        from vf.pysym.values import SStr
-        return it.call(env.vars["parse_source"], [SStr(z3.String("text"))], {})
-    run = api.run(entry, opts={"prune": True}, setup=setup)
-    findings = []
-    ok = 0
-    for p in run.paths:
-        final = [v for t, v in p.recorded if t == "final"]
-        if isinstance(p.outcome, Unsup):
-            raise common.Inconclusive("parse_source leaves the pysym subset: " + p.outcome.reason)
-        if not final:
-            continue
-        if final[-1] == "comment" and not isinstance(p.outcome, Raise):
-            findings.append("parse_source returns an AST although the lexer ended inside a block comment")
-        else:
-            ok += 1
-    return findings, ok, run
 
 
 def mutate(tokens, rng, terminals):
@@ -130,9 +77,12 @@ def main(tier):
                 w = {"kind": "rejects", "text": f["text"] if f["text"] else "=", "why": w["why"]}
                 w["text"] = 'def e { return "a" weighted 1 } ' + w["text"]
             witnesses.append(w)
-    unterminated, ok_paths, urun = unterminated_comment_check()
-    for u in unterminated:
-        witnesses.append({"kind": "rejects", "text": 'def e { return "a" weighted 1 } /* never closed', "why": u})
+    from vf.props import glue
+    gfind, ok_paths, urun = glue.analyse()
+    for code, desc in gfind:
+        if code == "unterminated-accepted":
+            witnesses.append({"kind": "rejects", "text": 'def e { return "a" weighted 1 } /* never closed', "why": desc})
+    witnesses += glue.witnesses_for(PROP, [f for f in gfind if f[0] != "unterminated-accepted"])
     # ---- syntactic --------------------------------------------------------------------
     gi, parser_cls = cyk.live_grammar()
     gr = cyk.ref_grammar()
@@ -244,7 +194,8 @@ def main(tier):
         "token_bound_K": K,
         "common_sentence_twin": " ".join(twin) if twin else None,
         "parse_absorb_paths": absorb_res,
-        "unterminated_comment_paths_ok": ok_paths,
+        "parse_source_glue_paths_ok": ok_paths,
+        "parse_source_glue_obligations": ["text handed to the lexer unchanged", "token stream handed to the parser unchanged", "LexError / YaccError propagate", "parser result returned unchanged", "lexer ending inside a block comment raises", "a lexer outliving the call is back in its initial state on every exit"],
         "lalr_conflicts": {"sr": len(lt.sr_conflicts), "rr": len(lt.rr_conflicts)},
         "near_misses_rejected_by_the_real_pipeline": n_valid - len(absorbed),
         "queries": tally.as_dict(),
